@@ -162,6 +162,18 @@ int main(int argc, char** argv) {
         if (o == "find") { S s = words(t, 1); auto sh = st->find(tovh(s)); if (sh == st->null_simplex()) return "find none"; r << "find " << F(st->filtration(sh)); return r.str(); }
         if (o == "star") { S s = words(t, 1); std::vector<S> star; for (auto c : st->star_simplex_range(st->find(tovh(s)))) star.push_back(verts(*st, c)); return "star " + Ws(star); }
         if (o == "order") { if (dirty) { st->clear_filtration(); dirty = false; } r << "order"; for (auto sh : st->filtration_simplex_range()) r << " " << W(verts(*st, sh)) << ":" << F(st->filtration(sh)); if (st->num_simplices() == 0) r << " "; return r.str(); }
+        if (o == "orderinf") {   // initialize_filtration(ignore_infinite_values = true): the simplices of value >= K are made infinite for the call, then restored
+          if constexpr (OPT::store_filtration) {
+            long K = L(t[1]); if (dirty) { st->clear_filtration(); dirty = false; }
+            std::vector<std::pair<typename ST::Simplex_handle, typename ST::Filtration_value>> saved; size_t kept = 0;
+            for (auto sh : st->complex_simplex_range()) { if (F(st->filtration(sh)) >= K) saved.push_back({sh, st->filtration(sh)}); else ++kept; }
+            if (kept == 0) return "orderinf none";      // (everything ignored: the library falls back to the default initialisation)
+            for (auto& p : saved) st->assign_filtration(p.first, std::numeric_limits<typename ST::Filtration_value>::infinity());
+            st->clear_filtration(); st->initialize_filtration(true);
+            r << "orderinf"; for (auto sh : st->filtration_simplex_range()) r << " " << W(verts(*st, sh)) << ":" << F(st->filtration(sh));
+            for (auto& p : saved) st->assign_filtration(p.first, p.second);
+            st->clear_filtration(); return r.str(); }
+          return "orderinf none"; }
         return "bad-op"; });
       if (o != "obs") std::cout << "\n"; });
 }
